@@ -44,7 +44,7 @@ func init() {
 		if e.thorough {
 			n, pb = 6, 100
 		}
-		batches := structuralBatches(e, r, n, pb, []string{"useZeroValueOnPointerInconsistency"}, "pointer-matrix")
+		batches := structuralBatchesOpt(e, r, n, pb, []string{"useZeroValueOnPointerInconsistency"}, "pointer-matrix", false)
 		res, err := runK2(e, "c11s", batches)
 		if err != nil {
 			return err
